@@ -146,3 +146,74 @@ void h_add_column(void) {
   free(name);
   CQV_CANARY("add_column harness end");
 }
+
+/* add_group: CQV_PART 0 state, 2 name copy under allocation failure */
+void h_add_group(void) {
+  carquet_schema_t *s = mk_schema();
+  int32_t ne = s->num_elements, nl = s->num_leaves;
+  int32_t k = nondet_i32();
+  __CPROVER_assume(k >= 1 && k < ne);
+  _Bool have_k = ne > 1;
+  char *old_k_name = NULL; int32_t old_k_nc = 0; int old_k_rep = 0;
+  if (have_k) { old_k_name = s->elements[k].name; old_k_nc = s->elements[k].num_children; old_k_rep = s->elements[k].repetition_type; }
+  char *old_root_name = s->elements[0].name;
+  size_t nlen = nondet_size_t();
+  __CPROVER_assume(nlen >= 1 && nlen <= CQV_MAXBUF);
+  char *name = malloc(nlen);
+  __CPROVER_assume(name != NULL);
+  name[nlen - 1] = 0;
+  int rep_i = nondet_int();
+  __CPROVER_assume(rep_i >= 0 && rep_i <= 2);
+  int32_t parent = nondet_i32();
+  cqv_strdup_calls = 0;
+  int32_t r = carquet_schema_add_group(s, name, (carquet_field_repetition_t)rep_i, parent);
+  if (r >= 0) {
+    CQV_CANARY("add_group can succeed");
+#if CQV_PART == 0
+    check_rep(s);
+    __CPROVER_assert(parent == -1 || parent == 0, "only root-level groups are accepted");
+    __CPROVER_assert(r == ne && s->num_elements == ne + 1 && s->num_leaves == nl, "one element more, same columns, index returned");
+    const parquet_schema_element_t *e = &s->elements[ne];
+    __CPROVER_assert(cqv_strdup_calls == 1 && cqv_strdup_src == name && e->name == cqv_strdup_ret, "stored name is the arena copy of the caller's name");
+    __CPROVER_assert(!e->has_type && e->has_repetition && e->repetition_type == (carquet_field_repetition_t)rep_i && e->num_children == 0 && !e->has_logical_type, "group element stored");
+    if (have_k) __CPROVER_assert(s->elements[k].name == old_k_name && s->elements[k].num_children == old_k_nc && s->elements[k].repetition_type == old_k_rep, "earlier elements kept");
+    __CPROVER_assert(s->elements[0].name == old_root_name, "root keeps its name");
+#else
+    __CPROVER_assert(s->elements[ne].name != NULL, "C19: success means fully updated state (name copy not lost)");
+#endif
+  } else {
+    CQV_CANARY("add_group can refuse");
+    __CPROVER_assert(r == -1, "error value is -1");
+    check_rep(s);
+    __CPROVER_assert(s->num_elements == ne && s->num_leaves == nl, "on error the schema still describes the same columns");
+  }
+  carquet_schema_free(s);
+  free(name);
+  CQV_CANARY("add_group harness end");
+}
+
+/* accessors return exactly the stored fields; get_element rejects out-of-range indices */
+void h_accessors(void) {
+  carquet_schema_t *s = mk_schema();
+  int32_t idx = nondet_i32();
+  __CPROVER_assert(carquet_schema_num_columns(s) == s->num_leaves && carquet_schema_num_elements(s) == s->num_elements, "counts");
+  const carquet_schema_node_t *nd = carquet_schema_get_element(s, idx);
+  if (idx < 0 || idx >= s->num_elements) {
+    __CPROVER_assert(nd == NULL, "out-of-range element index gives NULL");
+    CQV_CANARY("accessors: index rejected");
+  } else {
+    const parquet_schema_element_t *e = &s->elements[idx];
+    __CPROVER_assert((const void *)nd == (const void *)e, "node is the element");
+    __CPROVER_assert(carquet_schema_node_name(nd) == e->name, "name");
+    __CPROVER_assert(carquet_schema_node_is_leaf(nd) == e->has_type, "leaf flag");
+    __CPROVER_assert(carquet_schema_node_physical_type(nd) == e->type, "physical type");
+    __CPROVER_assert(carquet_schema_node_repetition(nd) == e->repetition_type, "repetition");
+    __CPROVER_assert(carquet_schema_node_type_length(nd) == e->type_length, "type length");
+    __CPROVER_assert(carquet_schema_node_logical_type(nd) == (e->has_logical_type ? &e->logical_type : NULL), "logical type");
+    /* flat (root-level) node: levels of the one-node path */
+    __CPROVER_assert(carquet_schema_node_max_def_level(nd) == ((e->repetition_type == CARQUET_REPETITION_OPTIONAL || e->repetition_type == CARQUET_REPETITION_REPEATED) ? 1 : 0), "node max_def for a root-level node");
+    __CPROVER_assert(carquet_schema_node_max_rep_level(nd) == (e->repetition_type == CARQUET_REPETITION_REPEATED ? 1 : 0), "node max_rep for a root-level node");
+    CQV_CANARY("accessors: element returned");
+  }
+  CQV_CANARY("accessors harness end");
+}
